@@ -163,7 +163,13 @@ func cfgBitsOf(cfg seqCfg) uint32 {
 // stops at the first disagreement (model and table have diverged; anything later
 // would cascade).
 func (w *seqWorker) runSeq(cfg seqCfg, alpha []op, seq []int) {
-	t := nbtns.NewNetBIOSNameServer(true)
+	// both values of the constructor's option in turn (decided by the sequence itself, so that a
+	// replay builds the same table): the table's behaviour does not depend on it
+	parity := 0
+	for _, x := range seq {
+		parity += x
+	}
+	t := nbtns.NewNetBIOSNameServer(parity%2 == 0)
 	var st [2]rec
 	w.held = w.held[:0]
 	w.seqs++
